@@ -58,7 +58,16 @@ pub fn gen_conc_run(verif_seed: u64, j: u64) -> ConcRun {
                 qr.input.truncate(60);
                 qr.version = None;
             }
-            let setters = if same_content { vec![] } else { gen::gen_rsetters(&mut rng, is_img, is_img, false) };
+            let mut setters = if same_content { vec![] } else { gen::gen_rsetters(&mut rng, is_img, is_img, false) };
+            let mut kind = kind;
+            // a caller often exports the same thing again (to the same or another file) while the
+            // others export something else: where "already done" shortcuts meet concurrency
+            if k > 0 && !same_content && rng.chance(1, 2) {
+                let prev: &IoOp = &ops[k - 1];
+                kind = prev.kind;
+                qr = prev.qr.clone();
+                setters = prev.setters.clone();
+            }
             let mut plan = PlanSpec::default();
             if faulty {
                 match rng.below(6) {
@@ -93,6 +102,7 @@ pub fn gen_conc_run(verif_seed: u64, j: u64) -> ConcRun {
                 pad_to: None,
                 rlimit: None,
                 litter: Vec::new(),
+                cwd: 0,
                 crash_at: None,
             });
         }
